@@ -482,7 +482,7 @@ RULE_ADDENDA_R9 = {
     "C09": ("The directory the archive is extracted into held a bundle that knew the same registry packages and was asked about them."),
     "C10": ("A fetcher may replace the directory it is given by a link to a checkout elsewhere (the build must fail and the checkout stay untouched)."),
     "C12": ("Bundlefaults also makes the n-th fetch or analysis panic (the caller recovers): the builder is spent. Diagnostics also runs with a tracer on the first call only, or on the later calls only."),
-    "C19": ("An 'unpackinto' mode unpacks two archives one after the other into a destination that already holds fifos under entry names and directories recorded as read-only (worker stack limited to 64 MiB)."),
+    "C19": ("The address pool holds internationalised host labels of 60 to 2500 characters (fix 61 was found by FuzzAddr in the thorough tier). An 'unpackinto' mode unpacks two archives one after the other into a destination that already holds fifos under entry names and directories recorded as read-only (worker stack limited to 64 MiB)."),
     "C15": ("Concurrentunpack sub-check (a -race binary): 2-5 archives unpacked at the same time through one Packer value, each destination compared with what its archive gives alone."),
     "C16": ("Spellings include relative ones with '..' from a working directory entered through a symlink with $PWD spelling it that way; history operations include a Pack of the directory above."),
     "C18": ("Manifests may hold two packages with the same URL text and different source types."),
